@@ -59,15 +59,6 @@ def Req.noStatus2 : Req → Prop
 /-- no `compile` request of the history ended with status 2 -/
 def NoStatus2 (h : List Req) : Prop := ∀ q ∈ h, q.noStatus2
 
-/-- The second hypothesis that is left: every `compile` request could at least be read by
-    the worker.  Otherwise `worker_proc.worker` answers status 1 with the ordinary
-    exception of `pickle.loads(req)` / `get_handler` — before `__sync__` ran — and
-    `BaseWorker.call` acknowledges a sync that never happened. -/
-def Req.noLostRequest : Req → Prop
-  | .compile r => r.out ≠ .requestUnreadable
-  | .tx _ => True
-
-def NoLostRequest (h : List Req) : Prop := ∀ q ∈ h, q.noLostRequest
 
 /-! ### "identities never come back"
 
